@@ -34,6 +34,7 @@ RULE = ("seeded sampling over sampler x (nsamples, nburnout) x x-shape {(), (1,)
         "derived x non-tensor parameter x order; groups: custom, dummy, mh_small (exact checks), mh_stat (statistical), mh_burn (chain started "
         "30 sigma from the mode: burn-in must have happened), meta (constant / linearity / tuple relations); non-trivial = the f spy saw >= 2 distinct samples in the forward call and (at least one "
         "gradient with non-zero reference was compared, or the group is meta/mh_stat with its relation evaluated)")
+RULE += ('; group extra (vf/c16_extra.py): loss nonlinear in the expectation, chained parameters, one object re-assigned between two expectations with one backward, f and log p as methods of one object sharing a tensor, chain states of another dtype than the model')
 MIN_NONTRIVIAL = {"quick": 350, "thorough": 4000}
 ASSUMPTIONS = ["float64 only; x0 does not require grad; nsamples >= 1 (nsamples = 0 has no mean)",
                "f is polynomially bounded / bounded trigonometric, log p is Gaussian or quartic with scale parameters in [0.7, 1.5]",
